@@ -4,70 +4,6 @@
 
 using namespace vf;
 
-// Between two updates of the same graph: new base levels and/or a new mask (base levels stay
-// unmasked and non-empty), returns a description of what was changed.
-static std::string mutate_settings(vg::Src& s, FlowCase& fc, va::IGraph& g, bool every_component)
-{
-    std::string what;
-    size_t n = fc.m.n;
-    size_t kind = s.weighted({ 100, 80, 40, 36 });  // nothing, base levels, mask, both
-    if (kind == 2 || kind == 3)
-    {
-        auto mk = vg::gen_mask(s, fc.m);
-        if (mk.empty())
-            mk.assign(n, 0);
-        fc.mask = mk;
-        g.set_mask(mk);
-        what += " set_mask(" + vg::describe_mask(mk) + ")";
-    }
-    bool need_bl = kind == 1 || kind == 3;
-    for (auto b : fc.bl)
-        if (fc.masked(b))
-            need_bl = true;
-    if (need_bl)
-    {
-        vg::BaseInfo bi;
-        std::vector<size_t> nbl;
-        if (kind == 1 && s.coin() && fc.bl.size() < n)
-        {
-            // same number of base levels at other nodes (a cached size would not notice)
-            std::vector<size_t> cand;
-            for (size_t i = 0; i < n; ++i)
-                if (!fc.masked(i) && !fc.isbase[i])
-                    cand.push_back(i);
-            nbl.clear();
-            for (size_t k = 0; k < fc.bl.size() && !cand.empty(); ++k)
-            {
-                size_t j = s.range(0, cand.size() - 1);
-                nbl.push_back(cand[j]);
-                cand.erase(cand.begin() + static_cast<long>(j));
-            }
-            std::sort(nbl.begin(), nbl.end());
-            if (nbl.empty())
-                nbl = vg::gen_base_levels(s, fc.m, fc.mask, every_component, &bi);
-            else if (every_component)
-            {
-                auto reach = vg::reach_from(fc.m, fc.mask, nbl);
-                for (size_t i = 0; i < n; ++i)
-                    if (!fc.masked(i) && !reach[i])
-                    {
-                        nbl.push_back(i);
-                        reach = vg::reach_from(fc.m, fc.mask, nbl);
-                    }
-                std::sort(nbl.begin(), nbl.end());
-            }
-        }
-        else
-            nbl = vg::gen_base_levels(s, fc.m, fc.mask, every_component, &bi);
-        fc.bl = nbl;
-        fc.bi.is_explicit = true;
-        g.set_base_levels(nbl);
-        what += " set_base_levels(" + vg::describe_set(nbl) + ")";
-    }
-    finish_case(fc);
-    return what;
-}
-
 static bool check_routes(vh::Ctx& c, const FlowCase& fc, const ProgInfo& pi, const GraphState& st, const std::vector<double>& f, const std::string& tag);
 
 static void check_case(vg::Src& s, vh::Ctx& c)
